@@ -80,8 +80,8 @@ def rule_owned_containers(repo):
                     for tg in n.targets:
                         if isinstance(tg, ast.Attribute) and tg.attr in CONT:
                             v = n.value
-                            ok = isinstance(v, (ast.List, ast.Dict, ast.ListComp, ast.Set)) or (
-                                isinstance(v, ast.Call) and ast.unparse(v.func) in ('list', 'set', 'dict', 'OrderedDict', 'copy', 'deepcopy')) or (
+                            ok = isinstance(v, (ast.List, ast.Dict, ast.ListComp, ast.Set, ast.SetComp, ast.DictComp)) or (
+                                isinstance(v, ast.Call) and ast.unparse(v.func) in ('list', 'set', 'dict', 'OrderedDict', 'copy', 'deepcopy', 'sorted')) or (
                                 isinstance(v, ast.Name) and v.id in fresh_locals)
                             if not ok:
                                 bad.append('%s:%d %s = %s' % (os.path.basename(f), n.lineno, ast.unparse(tg), ast.unparse(v)[:40]))
@@ -114,6 +114,18 @@ def rule_static_dispatch(repo):
     return out
 
 
+def _probe_dispatcher(repo, kinds):
+    import subprocess, json
+    here = os.path.dirname(os.path.dirname(os.path.abspath(__file__)))
+    env = dict(os.environ); env['PYTHONPATH'] = repo; env['PYTHONDONTWRITEBYTECODE'] = '1'
+    try:
+        p = subprocess.run(['/venv/bin/python', os.path.join(here, 'native', 'probe_dispatch.py')], input=json.dumps({'kinds': kinds}),
+                           capture_output=True, text=True, timeout=120, env=env, cwd=repo)
+        return json.loads(p.stdout.split('@@JSON@@')[-1])
+    except Exception as e:
+        return {k: 'probe failed to run: %r' % (e,) for k in kinds}
+
+
 def rule_dispatcher_wiring(repo):
     """for each callback kind K: _call_K iterates exactly _container_K and calls func(*args, **kwargs);
     register_K / deregister_K touch exactly _container_K; CallbackListener.register_all_listeners registers K iff overridden"""
@@ -121,6 +133,7 @@ def rule_dispatcher_wiring(repo):
     t = _parse(repo + '/spydrnet/global_state/global_callback.py')
     conts = [tg.id for n in t.body if isinstance(n, ast.Assign) for tg in n.targets if isinstance(tg, ast.Name) and tg.id.startswith('_container_')]
     fns = {n.name: n for n in t.body if isinstance(n, ast.FunctionDef)}
+    unrecognised = []
     for cn in conts:
         k = cn[len('_container_'):]
         c, r, d = fns.get('_call_' + k), fns.get('register_' + k), fns.get('deregister_' + k)
@@ -133,10 +146,23 @@ def rule_dispatcher_wiring(repo):
             used_r = {x.id for x in ast.walk(r) if isinstance(x, ast.Name) and x.id.startswith('_container_')}
             used_d = {x.id for x in ast.walk(d) if isinstance(x, ast.Name) and x.id.startswith('_container_')}
             ok = ok and used_r == {cn} and used_d == {cn}
-            if not ok: detail = 'call=%s register uses %s deregister uses %s' % (ast.unparse(c)[:80], sorted(used_r), sorted(used_d))
+            if not ok:
+                detail = 'call=%s register uses %s deregister uses %s' % (ast.unparse(c)[:80], sorted(used_r), sorted(used_d))
+                unrecognised.append(k)
         else:
             detail = 'missing _call_/register_/deregister_'
-        out.append(('S/dispatcher-wiring/' + k, ok, detail))
+        out.append(['S/dispatcher-wiring/' + k, ok, detail])
+    if unrecognised:
+        # the functions exist but no longer have the one shape this rule reads (say, they delegate to a helper): that is not a
+        # violation by itself -- the wiring of those kinds is decided by a behavioural probe of the real dispatcher instead
+        probe = _probe_dispatcher(repo, unrecognised)
+        for row in out:
+            k = row[0].split('/')[-1]
+            if k in unrecognised and probe.get(k) == '':
+                row[1] = True; row[2] = 'shape not recognised by the syntactic rule; decided by the dispatcher probe (native/probe_dispatch.py): forwards to exactly its own listeners, in order, arguments unchanged'
+            elif k in unrecognised:
+                row[2] += '; dispatcher probe: %s' % probe.get(k, 'no answer')
+    out = [tuple(r_) for r_ in out]
     t = _parse(repo + '/spydrnet/callback/callback_listener.py')
     cl = [n for n in t.body if isinstance(n, ast.ClassDef)][0]
     ra = [fn for fn in cl.body if isinstance(fn, ast.FunctionDef) and fn.name == 'register_all_listeners'][0]
@@ -323,6 +349,8 @@ def rule_composer_frame(repo):
                 return isinstance(e.value, ast.Name) and e.value.id == 'self'
             if isinstance(e, ast.Subscript):
                 return owned(fn, e.value)
+            if isinstance(e, ast.Call) and isinstance(e.func, ast.Attribute) and e.func.attr in ('setdefault', 'get') and owned(fn, e.func.value):
+                return True              # an element of an owned container, like the subscript form d[k]
             return False
         bad = []
         for fn in fns:
